@@ -131,6 +131,8 @@ type Outcome struct {
 	OrderSHA string         `json:"order_sha"` // seam log without timestamps
 	NEvents  int            `json:"n_events"`
 	Events   []string       `json:"events,omitempty"`
+	// SeamEvents is the structured seam log (when WantEvents is set).
+	SeamEvents []simnet.Event `json:"seam_events,omitempty"`
 	GraphSHA string         `json:"graph_sha,omitempty"`
 	Extra    map[string]any `json:"extra,omitempty"`
 	LogTail  []string       `json:"log_tail,omitempty"`
